@@ -100,7 +100,7 @@ def main(tier):
                         if d:
                             rep.violation({"check": "%s with a plain number" % cls, "op": op, "k": kname, "kvalue": kval, "quantity": qsel, "container": kind}, {"diff": d, "xs": vs})
             # a numpy array as the plain operand (Arrays only): element i of k is kval for every i
-            karrs = [numpy.array([kval] * len(vs))]
+            karrs = [numpy.array([kval] * len(vs)), numpy.ma.MaskedArray([kval] * len(vs))]     # (a masked array is an ndarray subclass with a high priority)
             if kval >= 0 and float(kval) == int(kval):
                 karrs += [numpy.array([int(kval)] * len(vs), dtype=numpy.uint8), numpy.array([int(kval)] * len(vs), dtype=numpy.int32)]
             for karr in karrs:
